@@ -73,10 +73,10 @@ PROPS = {
                       "prepared fresh environment (refinement), probes check that no local name is visible at top level, readers check all-or-nothing monotone visibility "
                       "of a redefined global, and the Go race detector runs on the same tapes for the no-data-race clause.",
         "level_note": "Trusts the simulator and ThreadSanitizer; the solo run is the reference (it is the same interpreter); env critical sections are atomic in the simulation, their absence is a matter for the race oracle.",
-        "rule": "one run = one seeded tape: 2-5 programs of 2-5 fragments drawn from 59 templates (let, shadowing, tail/non-tail recursion under thread-specific global names, "
+        "rule": "one run = one seeded tape: 2-5 programs of 2-5 fragments drawn from 61 templates (let, shadowing, tail/non-tail recursion under thread-specific global names, "
                 "closures over local atoms, own and library macros, memoize, try/catch, defs, def inside thunks and future bodies, derivation from shared vector/map/list/closure/macro, "
                 "map/apply/reduce/update-in, futures incl. ones started in a non-final let binding, gensym names used as private globals, a local helper defined after a future was started, rest lists of variadic callbacks that outlive map, memoized closures with the "
-                "same text and different captured values in every thread, a global redefined from its own value, shared atoms printed with str/pr-str, futures cancelled in the middle of a computation), "
+                "same text and different captured values in every thread, a global redefined from its own value, shared atoms printed with str/pr-str, an atom of the program's own printed while a future of the program updates it, futures cancelled in the middle of a computation), "
                 "same local names in every thread with thread-specific values; optional writer redefining g through 2-6 distinct structured values with 1-2 readers; optional prober "
                 "reading local and temporary names at top level. Statement-level yields in lib/concurrent/concurrent.go and env/env.go. "
                 "non-trivial = at least 2 tasks and at least 4 token switches; distinct = distinct hash of the (task, hook point) switch sequence",
